@@ -58,7 +58,7 @@ static void p1x_ghost_reset(int mode)
 region_t region_create(region_addr_t min, region_addr_t max)
 {
 	p1x_rg_creates++;
-	if (IN.region_fail)
+	if (IN.region_fail & 1)
 		return 0;
 	p1x_rg_min = min;
 	p1x_rg_max = max;
